@@ -1,10 +1,12 @@
 package main
 
 import (
+	"bytes"
 	"fmt"
 	"math/rand"
 	"os"
 	"path/filepath"
+	"runtime/debug"
 	"strings"
 	"time"
 
@@ -223,8 +225,131 @@ func optionsEngine() {
 			}
 		}
 	}
+	// (3) a multi-page allocation in the FIRST write transaction after a reopen, on a file whose free
+	// list is fragmented (isolated free pages before one long run): the free list just read from the
+	// page (or rebuilt by scanning) is used as it is, before any release has rebuilt it.  Same
+	// history under every (backend, freelist-sync at reopen) combination.
+	nra := 3
+	if *flagTier == "thorough" {
+		nra = 40
+	}
+	for k := 0; k < nra; k++ {
+		seed := *flagSeed*15487469 + int64(k)
+		ps := []int{4096, 1024, 8192}[k%3]
+		var ref, refOpts string
+		for _, createNFS := range []bool{false, true} {
+			for _, ft := range []bolt.FreelistType{bolt.FreelistArrayType, bolt.FreelistMapType} {
+				for _, reopenNFS := range []bool{false, true} {
+					o := fmt.Sprintf("ps=%d created-with-nofreelistsync=%v reopened-with freelist=%s nofreelistsync=%v", ps, createNFS, ft, reopenNFS)
+					rp := map[string]any{"scenario": "multi-page allocation right after reopen on a fragmented free list", "seed": seed, "opts": o}
+					inFlight("options", rp)
+					got := runReopenAllocScenario(filepath.Join(dir, "ra.db"), seed, ps, createNFS, ft, reopenNFS)
+					rep.Evaluations++
+					rep.count("reopen-alloc-scenario")
+					if ref == "" {
+						ref, refOpts = got, o
+					} else if got != ref {
+						rep.violation("C13", "monitor", "options-change-results:alloc-after-reopen",
+							fmt.Sprintf("same history (seed %d), only the options differ: with [%s]: %s; with [%s]: %s", seed, o, truncate(got, 300), refOpts, truncate(ref, 300)), rp)
+					}
+				}
+			}
+		}
+	}
 	inFlight("options", nil)
 	rep.finish(start)
+}
+
+// runReopenAllocScenario: fill a bucket with two-keys-per-leaf values, add and delete a long run,
+// delete keys in a stride (isolated free pages), close; reopen with the given options; the first
+// update stores a value of several pages; then a small update, Tx.Check and a dump.  Returns the
+// API results and the content, which must not depend on the options.
+func runReopenAllocScenario(path string, seed int64, ps int, createNFS bool, ft bolt.FreelistType, reopenNFS bool) (res string) {
+	defer debug.SetPanicOnFault(debug.SetPanicOnFault(true))
+	_ = os.Remove(path)
+	rng := rand.New(rand.NewSource(seed))
+	nkeys := 300 + rng.Intn(400)
+	vlen := ps*3/8 + rng.Intn(ps/16)
+	runPages := 20 + rng.Intn(40)
+	stride := 4 + rng.Intn(5)
+	need := 2 + rng.Intn(7)
+	var sb strings.Builder
+	step := func(name string, fn func() error) {
+		defer func() {
+			if r := recover(); r != nil {
+				fmt.Fprintf(&sb, "%s: PANIC %v; ", name, r)
+			}
+		}()
+		fmt.Fprintf(&sb, "%s: %v; ", name, fn())
+	}
+	key := func(i int) []byte { return []byte(fmt.Sprintf("k%05d", i)) }
+	db, err := bolt.Open(path, 0o600, &bolt.Options{PageSize: ps, NoFreelistSync: createNFS, Timeout: time.Second})
+	if err != nil {
+		return "open: " + err.Error()
+	}
+	step("fill", func() error {
+		return db.Update(func(tx *bolt.Tx) error {
+			b, err := tx.CreateBucket([]byte("b"))
+			if err != nil {
+				return err
+			}
+			for i := 0; i < nkeys; i++ {
+				if err := b.Put(key(i), bytes.Repeat([]byte{byte(i)}, vlen)); err != nil {
+					return err
+				}
+			}
+			return nil
+		})
+	})
+	step("run", func() error {
+		return db.Update(func(tx *bolt.Tx) error {
+			return tx.Bucket([]byte("b")).Put([]byte("run"), make([]byte, runPages*ps))
+		})
+	})
+	step("fragment", func() error {
+		return db.Update(func(tx *bolt.Tx) error {
+			b := tx.Bucket([]byte("b"))
+			if err := b.Delete([]byte("run")); err != nil {
+				return err
+			}
+			for i := 0; i+1 < nkeys; i += stride {
+				if err := b.Delete(key(i)); err != nil {
+					return err
+				}
+				if err := b.Delete(key(i + 1)); err != nil {
+					return err
+				}
+			}
+			return nil
+		})
+	})
+	if err := db.Close(); err != nil {
+		return "close: " + err.Error()
+	}
+	db, err = bolt.Open(path, 0o600, &bolt.Options{PageSize: ps, NoFreelistSync: reopenNFS, FreelistType: ft, Timeout: time.Second})
+	if err != nil {
+		return sb.String() + "reopen: " + err.Error()
+	}
+	defer db.Close()
+	step("put-multi-page", func() error {
+		return db.Update(func(tx *bolt.Tx) error {
+			return tx.Bucket([]byte("b")).Put([]byte("zzz"), bytes.Repeat([]byte{'z'}, need*ps-ps/2))
+		})
+	})
+	step("put-small", func() error {
+		return db.Update(func(tx *bolt.Tx) error { return tx.Bucket([]byte("b")).Put([]byte("zzzz"), []byte("small")) })
+	})
+	step("check", func() error {
+		if bad := checkDB(db); bad != "" {
+			return fmt.Errorf("%s", truncate(bad, 200))
+		}
+		return nil
+	})
+	step("dump", func() error {
+		fmt.Fprintf(&sb, "content=%s ", hashStr(dumpDB(db)))
+		return nil
+	})
+	return sb.String()
 }
 
 var _ = time.Now
